@@ -17,9 +17,9 @@ ENV = dict(os.environ, RUSTUP_TOOLCHAIN="1.96.0", CARGO_NET_OFFLINE="true")
 CRATES = [
     ("server/lib/", "kanidmd_lib"), ("server/core/", "kanidmd_core"), ("proto/", "kanidm_proto"),
     ("libs/crypto/", "kanidm_lib_crypto"), ("libs/actors/", "kanidm_actors"), ("libs/scim_proto/", "scim_proto"),
-    ("unix_integration/pam_sparkle_common/", "pam_sparkle_common"), ("unix_integration/common/", "kanidm_unix_common"),
-    ("unix_integration/resolver_common/", "kanidm_unix_resolver_common"), ("unix_integration/resolver/", "kanidm_unix_resolver"),
-    ("rlm_kanidm/module/", "rlm_kanidm_module"), ("rlm_kanidm/shared/", "rlm_kanidm_shared"),
+    ("unix_integration/pam_sparkle_common/", "pam_sparkle_common"), ("unix_integration/common/", "sparkle_unix_common"),
+    ("unix_integration/resolver_common/", "sparkle_resolver_common"), ("unix_integration/resolver/", "kanidm_unix_resolver"),
+    ("rlm_kanidm/module/", "rlm_kanidm"), ("rlm_kanidm/shared/", "rlm_kanidm_shared"),
 ]
 
 
@@ -54,7 +54,9 @@ FEATURES = ""
 
 def nextest(crates, extra=""):
     pargs = " ".join(f"-p {c}" for c in crates) + FEATURES
-    r = sh(f"nice -n 10 cargo nextest run {pargs} --offline --no-fail-fast --test-threads 8 {extra} 2>&1")
+    # the resolver's integration tests hand out ports from a per-process counter: run them serially
+    threads = 1 if "sparkle_resolver_common" in crates else 8
+    r = sh(f"nice -n 10 cargo nextest run {pargs} --offline --no-fail-fast --test-threads {threads} {extra} 2>&1")
     txt = r.stdout
     fails = sorted(set(re.findall(r"^\s+FAIL \[[^\]]*\]\s*(?:\([^)]*\))?\s*(\S+ \S+)", txt, re.M)))
     summ = re.findall(r"Summary.*", txt)
